@@ -72,10 +72,19 @@ Theorem c03_include_skip_preserves_exec_refuted :
 Proof. exact include_skip_preserves_exec_refuted. Qed.
 Print Assumptions c03_include_skip_preserves_exec_refuted.
 
-Theorem c03_include_skip_idempotent :
-  forall (jv : list (bytes * json)) (d : document), include_skip jv (include_skip jv d) = include_skip jv d.
-Proof. exact include_skip_idempotent. Qed.
-Print Assumptions c03_include_skip_idempotent.
+(* one run can leave an evaluable directive behind (the walker skips the position after a dropped
+   directive); idempotent once every remaining directive is one the pass keeps *)
+Theorem c03_include_skip_idempotent_partial :
+  forall (jv : list (bytes * json)) (d : document),
+    settled jv (include_skip jv d) = true ->
+    include_skip jv (include_skip jv d) = include_skip jv d.
+Proof. exact include_skip_idempotent_partial. Qed.
+Print Assumptions c03_include_skip_idempotent_partial.
+
+Theorem c03_include_skip_idempotent_refuted :
+  exists (jv : list (bytes * json)) (d : document), include_skip jv (include_skip jv d) <> include_skip jv d.
+Proof. exact include_skip_idempotent_refuted. Qed.
+Print Assumptions c03_include_skip_idempotent_refuted.
 
 (* ---- fragment_definition_removal ---- *)
 Theorem c03_remove_frag_defs_preserves_exec_partial :
